@@ -167,6 +167,14 @@ def cases(ctx):
             yield dict(op="interrogator " + m, real=("pyModeS.allcall.interrogator", [m]), expect=ic_label(code), tag="ic")
             if code % 4 == 0:
                 yield dict(op=None, real=("h:props.C08.seq_interrogator", [m]), expect=ic_label(code), tag="ic-sequence")
+    # the corrupt range beyond 7 bits: a DF11 reply whose parity overlay has any of its upper 17 bits set carries no
+    # interrogator code at all (the remainder is >= 128), whatever its low 7 bits look like
+    for _ in range(ctx.n(600, 6000)):
+        low = rng.randrange(128)
+        high = rng.choice([1 << rng.randrange(7, 24), rng.randrange(1, 1 << 17) << 7])
+        f = spec.df_frame(rng, 11, 56, [], overlay_addr=high | low)
+        m = hex_of(f, rng.choice(["upper", "lower"]))
+        yield dict(op="interrogator " + m, real=("pyModeS.allcall.interrogator", [m]), expect="corrupt IC", tag="ic-corrupt-high")
     # guards
     for df in range(32):
         for n in (56, 112):
